@@ -21,7 +21,7 @@ ASSUMPTIONS = [
   "channel-1 code; documents compared by deep fingerprint (absdoc.fingerprint)",
 ]
 REQUIRED = ["cls:padding", "cls:chars", "cls:pac", "cls:midrow", "cls:control", "cls:attribute", "cls:special",
-            "cls:extended", "cls:unknown", "channel:1", "channel:2", "channel:None-field2", "disasm:lines", "consume:probes", "consume:class:control:chNone:field2", "consume:class:control:ch2"]
+            "cls:extended", "cls:unknown", "channel:1", "channel:2", "channel:None-field2", "disasm:lines", "consume:probes", "consume:class:control:chNone:field2", "consume:class:control:ch2", "consume:class:unknown-low:chNone", "consume:class:unknown-code:chNone"]
 SHARD_TIMEOUT = {"quick": 600, "thorough": 1800}
 
 
@@ -362,6 +362,11 @@ def foreign_words():
     r = T.classify(v)
     if r["cls"] in ("pac", "midrow", "control", "attribute", "special", "extended") and r["channel"] != 1:
       out.setdefault((r["cls"], r["channel"], r.get("field")), []).append(v)
+  # words the reference classifies as unknown (no code, no channel, not printable): the first byte below 10h (with any second
+  # byte) and the undefined words of the code range - nothing of them may reach the captions either
+  for v in range(0x0001, 0x2000):
+    if v == (v & 0x7F7F) and T.classify(v)["cls"] == "unknown":
+      out.setdefault(("unknown-low" if v < 0x1000 else "unknown-code", None, None), []).append(v)
   return out
 
 
@@ -375,6 +380,8 @@ def run_consume(ctx, params):
     # every foreign control code (they act on memories) at every slot; three representatives of the other classes
     for key, vs in sorted(fw.items(), key=lambda kv: repr(kv[0])):
       pick = vs if key[0] == "control" else [vs[0], vs[len(vs) // 2], vs[-1]]
+      if key[0].startswith("unknown"):
+        pick = vs[::max(1, len(vs) // 24)]
       for w in pick:
         for f in slots[:5]:
           check_consume(ctx, mode, [(f, w)])
